@@ -41,6 +41,11 @@ pub struct Swarm {
     pub bursts: bool,
     /// Thousands of rights (two anarchies of 64-72 attributes); no keys or ciphertexts in such runs.
     pub huge: bool,
+    /// One policy re-keyed 128-140 times in a row (chain lengths beyond one LEB128 byte).
+    pub mega_burst: bool,
+    /// One anarchy of 130-300 attributes and encryption policies that are disjunctions of more
+    /// than 128 of them (encapsulations with hundreds of components).
+    pub broad: bool,
 }
 
 #[derive(Clone, Copy, Debug, PartialEq, Eq)]
@@ -192,6 +197,16 @@ fn essential(prop: &str) -> Vec<Op> {
 impl Swarm {
     pub fn draw(prop: &str, rng: &mut Rng, thorough: bool) -> Swarm {
         let mut sw = Self::draw_inner(prop, rng, thorough);
+        if matches!(prop, "C01" | "C02" | "C07" | "C12" | "C13" | "C11" | "C18") && rng.below(70) == 0 {
+            sw.broad = true;
+            sw.n_dims = 1;
+            sw.hierarchy_pct = 0;
+            sw.tall = false;
+            sw.big_ids = false;
+            sw.long_names = false;
+            sw.n_users = sw.n_users.min(3);
+            sw.n_events = sw.n_events.min(30);
+        }
         if matches!(prop, "C05" | "C09" | "C10" | "C13") && rng.below(160) == 0 {
             // a huge structure: only master-key operations, edits and reloads
             sw.huge = true;
@@ -265,6 +280,8 @@ impl Swarm {
             pol_depth: *rng.pick(&[2, 2, 2, 2, 3, 3, 4]),
             bursts: rng.pct(8),
             huge: false,
+            mega_burst: rng.pct(2),
+            broad: false,
         }
     }
 }
@@ -412,7 +429,9 @@ impl Gen {
             }
             let mut d = MDim { name: dname.clone(), hierarchy, attrs: vec![] };
             let cap = if self.sw.n_dims >= 4 { self.sw.max_attrs.min(2) } else { self.sw.max_attrs };
-            let n_attrs = if self.sw.huge {
+            let n_attrs = if self.sw.broad {
+                *rng.pick(&[130usize, 200, 257, 258, 300])
+            } else if self.sw.huge {
                 rng.range(64, 72)
             } else if di == 0 && self.sw.tall && self.sw.n_dims <= 2 {
                 rng.range(8, 10)
@@ -508,6 +527,16 @@ impl Gen {
 
     fn keygen_pol(&mut self, rng: &mut Rng, w: &World) -> PolArg {
         let s = &w.auth.m.structure;
+        if self.sw.broad {
+            // keys of a few attributes of the big dimension (a `*` key would hold hundreds of rights)
+            if let Some(d) = s.dims.iter().find(|d| !d.attrs.is_empty()) {
+                let mut p = Pol::Term(d.name.clone(), rng.pick(&d.attrs).name.clone());
+                for _ in 0..rng.below(3) {
+                    p = Pol::Or(Box::new(p), Box::new(Pol::Term(d.name.clone(), rng.pick(&d.attrs).name.clone())));
+                }
+                return arg(rng, p);
+            }
+        }
         if rng.pct(self.sw.invalid_pct) {
             { let p = invalid_pol(rng, s, false); return arg(rng, p); }
         }
@@ -522,6 +551,19 @@ impl Gen {
         };
         if rng.pct(self.sw.invalid_pct) {
             { let p = invalid_pol(rng, s, true); return arg(rng, p); }
+        }
+        if self.sw.broad && rng.pct(50) {
+            // a disjunction of k attributes of the big anarchy, k around the byte boundaries
+            if let Some(d) = s.dims.iter().find(|d| d.attrs.len() >= 129) {
+                let k = (*rng.pick(&[127usize, 128, 129, 160, 255, 256, 257, 258])).min(d.attrs.len());
+                let mut idx: Vec<usize> = (0..d.attrs.len()).collect();
+                rng.shuffle(&mut idx);
+                let mut p = Pol::Term(d.name.clone(), d.attrs[idx[0]].name.clone());
+                for i in &idx[1..k] {
+                    p = Pol::Or(Box::new(p), Box::new(Pol::Term(d.name.clone(), d.attrs[*i].name.clone())));
+                }
+                return PolArg::new(p, 0);
+            }
         }
         // Bias towards rights some user holds or nearly holds.
         if rng.pct(40) {
@@ -591,7 +633,7 @@ impl Gen {
     fn enc_kind(&self, rng: &mut Rng) -> EncKind {
         match *rng.pick(&self.sw.kinds) {
             0 => EncKind::Kem,
-            1 => EncKind::Pke { len: if rng.pct(2) { rng.range(1_048_577, 1_200_000) } else { *rng.pick(LENGTHS) } },
+            1 => EncKind::Pke { len: if rng.pct(if self.prop == "C16" { 8 } else { 2 }) { rng.range(1_048_577, 1_200_000) } else { *rng.pick(LENGTHS) } },
             _ => EncKind::Header {
                 meta: match rng.below(4) {
                     0 => None,
@@ -673,10 +715,15 @@ impl Gen {
             }
             x if x == Op::Rekey as usize => {
                 let ev = Ev::Rekey { pol: self.rotation_pol(rng, w) };
-                if self.sw.bursts && rng.pct(30) {
+                if self.sw.mega_burst {
+                    self.sw.mega_burst = false;
+                    for _ in 0..rng.range(128, 140) {
+                        self.pending.push(ev.clone());
+                    }
+                } else if self.sw.bursts && rng.pct(30) {
                     // the same policy re-keyed several times in a row: long chains; now and then
                     // beyond 127 revisions (two-byte chain length)
-                    let n = if rng.pct(8) { rng.range(128, 140) } else { rng.range(3, 9) };
+                    let n = rng.range(3, 9);
                     for _ in 0..n {
                         self.pending.push(ev.clone());
                     }
@@ -814,7 +861,8 @@ impl Gen {
                 }
                 let slot = rng.below(w.slots.len());
                 let len = w.slots[slot].bytes.len().max(1);
-                let op = match rng.below(12) {
+                let op = match rng.below(14) {
+                    12 | 13 => ByteOp::XorPair { pos: rng.below(len), dist: *rng.pick(&[1usize, 2, 4, 8, 8, 16, 32]), delta: 1 << rng.below(8) },
                     10 => ByteOp::AadVariant { mode: 0 },
                     11 => ByteOp::AadVariant { mode: 1 + rng.below(200) as u8 },
                     0..=3 => ByteOp::FlipBit { pos: rng.below(len), bit: rng.below(8) as u8 },
@@ -857,7 +905,7 @@ impl Gen {
                 if !rng.pct(10) {
                     return None;
                 }
-                Ev::ScaleProbe { n: *rng.pick(&[4_000usize, 8_000, 12_000]) }
+                Ev::ScaleProbe { n: *rng.pick(&[20_000usize, 25_000]) }
             }
             x if x == Op::EncryptOtherThread as usize => {
                 let es: Vec<usize> = (0..w.encryptors.len()).filter(|e| w.encryptors[*e].mpk.is_some()).collect();
@@ -980,15 +1028,17 @@ impl Gen {
                 let pct = if thorough { 12 } else { 6 };
                 if rng.pct(pct) {
                     let slot = rng.below(w.slots.len());
-                    let mode = match rng.below(3) {
+                    let mode = match rng.below(4) {
                         0 => SweepMode::BitFlips,
                         1 => SweepMode::Truncations,
+                        2 => SweepMode::XorPairs,
                         _ => SweepMode::ByteOverwrites,
                     };
                     // bounded work per sweep: positions x 2 readers x cost of one read (which grows
                     // with the size of the readers' keys); exhaustive when it fits, strided otherwise
                     let positions = match mode {
                         SweepMode::BitFlips => w.slots[slot].orig.len() * 8,
+                        SweepMode::XorPairs => w.slots[slot].orig.len() * 4,
                         _ => w.slots[slot].orig.len(),
                     };
                     // one read costs about (secrets in the key) x (components) group operations
